@@ -296,6 +296,10 @@ structure KState where
   last : HashMap String Val := {}
   drv : HashMap (String × String) Val := {}     -- (driver id, signal) ↦ value; driver id = process index or "tb"
   vars : Array (List (String × Val)) := #[]
+  taint : HashMap String (List Bool) := {}            -- per signal: which elements went through a metavalue decision (see `taintExpr`)
+  dtaint : HashMap (String × String) (List Bool) := {} -- per driver
+  vtaint : Array (List (String × List Bool)) := #[]   -- per process: taint of its variables
+  taintWake : List String := []                       -- signals whose taint (not value) changed in the last delta
   deltas : Nat := 0
   procRuns : Nat := 0
   assertsFailed : Nat := 0
@@ -332,16 +336,161 @@ def initState (k : Kernel) : KState := Id.run do
     st := { st with cur := st.cur.insert n v, last := st.last.insert n v }
     for d in k.sigDrivers.getD n [] do
       st := { st with drv := st.drv.insert (d, n) v }
-  st := { st with vars := k.flat.procs.map (·.varInit) }
+  st := { st with vars := k.flat.procs.map (·.varInit), vtaint := k.flat.procs.map (fun _ => []) }
   return st
+
+/-! ## taint: values that went through a metavalue decision
+
+A defined VHDL value is *tainted* when a metavalue took part in deciding it: (a) the result of a relational operator, `to_integer`,
+an index or a shift amount with a metavalue operand (numeric_std answers FALSE / 0 there); (b) everything assigned anywhere inside
+an IF / CASE whose condition / selector is tainted — the branch taken and the targets of the branches skipped; (c) whatever is
+computed from tainted operands (element-wise for logical operators, concatenation, slices; all elements for arithmetic), through
+variables, signals, registers, memory words and port associations (aliases). Metavalues themselves are tainted. Taint is only used
+to classify a defined-versus-defined CHECK mismatch; where the rules below are unsure they answer "not tainted". -/
+
+def metaMask (v : Val) : List Bool :=
+  match normVal v with
+  | .sl a => [a.to01?.isNone]
+  | .lit a => a.map (·.to01?.isNone)
+  | .mem ws => ws.map (·.any (·.to01?.isNone))
+  | _ => [false]
+
+def fitT (w : Nat) (t : List Bool) : List Bool := (t ++ List.replicate (w - t.length) false).take w
+
+def orT (a b : List Bool) : List Bool :=
+  let w := max a.length b.length
+  List.zipWith (· || ·) (fitT w a) (fitT w b)
+
+partial def taintExpr (rd : Rd) (tl : String → List Bool) (e : Expr) : List Bool :=
+  match evalExpr rd e with
+  | .error _ => []
+  | .ok v =>
+    let mm := metaMask v
+    let w := mm.length
+    let allT := fun (b : Bool) => List.replicate w b
+    let sub := taintExpr rd tl
+    let vmeta := fun (x : Expr) => match evalExpr rd x with | .ok y => (metaMask y).any id | _ => false
+    let t : List Bool := match e with
+      | .name n => fitT w (tl n)
+      | .index n i =>
+        if (sub i).any id || vmeta i then allT true else
+        match evalExpr rd i with
+        | .ok (.int k) => allT ((tl n).getD k false)
+        | _ => allT false
+      | .slice n _ l => fitT w ((tl n).drop l)
+      | .agg0 x => fitT w (sub x)
+      | .not x => fitT w (sub x)
+      | .paren x => fitT w (sub x)
+      | .bin op a b =>
+        let ta := sub a
+        let tb := sub b
+        if op.isLogical then (if ta.length == tb.length then List.zipWith (· || ·) ta tb else allT (ta.any id || tb.any id))
+        else if op == .cat then tb ++ ta
+        else allT (ta.any id || tb.any id || vmeta a || vmeta b)     -- relational and arithmetic operators
+      | .call1 f a =>
+        match f with
+        | .toInteger => allT ((sub a).any id || vmeta a)
+        | _ => fitT w (sub a)
+      | .call2 f a b =>
+        match f with
+        | .resize => fitT w (sub a)
+        | _ => allT ((sub a).any id || (sub b).any id || vmeta b)
+      | _ => allT false
+    List.zipWith (· || ·) (fitT w t) mm
+
+/-- a taint update of a signal by one process activation; `taint = none`: every element (assignment decided by a tainted condition) -/
+structure TWrite where
+  sig : String
+  idx : Option Nat := none
+  taint : Option (List Bool)
+  assigned : Bool            -- false: the statement was skipped, but under a tainted condition (the kept value is tainted as well)
+
+structure TSt where
+  pst : PSt
+  vt : List (String × List Bool) := []
+  tws : List TWrite := []
+
+mutual
+  def Stmt.varTargets : Stmt → List String
+    | .varAssign n _ => [n]
+    | .ite _ t e => t.varTargets ++ e.varTargets
+    | .case _ a => a.varTargets
+    | _ => []
+  def Stmts.varTargets : Stmts → List String
+    | .nil => []
+    | .cons s r => s.varTargets ++ r.varTargets
+  def Alts.varTargets : Alts → List String
+    | .nil => []
+    | .cons _ b r => b.varTargets ++ r.varTargets
+end
+
+def setVT (vt : List (String × List Bool)) (n : String) (t : List Bool) : List (String × List Bool) :=
+  (vt.filter (·.1 != n)) ++ [(n, t)]
+
+def widthOfVal (v : Val) : Nat := (metaMask v).length
+
+mutual
+  /-- `execStmt` together with the taint bookkeeping; `ctl`: an enclosing condition / selector is tainted -/
+  partial def texecStmt (rd : Rd) (tl : String → List Bool) (ctl : Bool) (s : TSt) : Stmt → Except String TSt
+    | .ite c t e => do
+      let rdv := rd.withVars s.pst.vars
+      let tlv := fun m => match s.vt.lookup m with | some x => x | none => tl m
+      let tc := ctl || (taintExpr rdv tlv c).any id
+      let s := if tc then markAll s (t.sigTargets ++ e.sigTargets) (t.varTargets ++ e.varTargets) else s
+      match ← evalExpr rdv c with
+      | .bool true => texecStmts rd tl tc s t
+      | .bool false => texecStmts rd tl tc s e
+      | _ => .error "IF condition is not a BOOLEAN"
+    | .case sel alts => do
+      let rdv := rd.withVars s.pst.vars
+      let tlv := fun m => match s.vt.lookup m with | some x => x | none => tl m
+      let tc := ctl || (taintExpr rdv tlv sel).any id
+      let s := if tc then markAll s alts.sigTargets alts.varTargets else s
+      let v ← evalExpr rdv sel
+      let b ← caseSelBits v
+      texecAlts rd tl tc s b alts
+    | st => do
+      -- assignments and asserts: the value semantics is `execStmt`
+      let rdv := rd.withVars s.pst.vars
+      let tlv := fun m => match s.vt.lookup m with | some x => x | none => tl m
+      let pst ← execStmt rd s.pst st
+      match st with
+      | .varAssign n e =>
+        let w := match pst.vars.lookup n with | some v => widthOfVal v | none => 1
+        let t := if ctl then List.replicate w true else fitT w (taintExpr rdv tlv e)
+        .ok { s with pst, vt := setVT s.vt n t }
+      | .sigAssign (.name n) e =>
+        .ok { s with pst, tws := s.tws ++ [{ sig := n, taint := if ctl then none else some (taintExpr rdv tlv e), assigned := true }] }
+      | .sigAssign (.index n i) e =>
+        let k := match pst.writes.getLast? with | some w => w.idx | none => none
+        let ti := (taintExpr rdv tlv i).any id
+        let te := (taintExpr rdv tlv e).any id
+        -- a tainted index: any word may have been the target
+        .ok { s with pst, tws := s.tws ++ [{ sig := n, idx := if ti || ctl then none else k, taint := if ti || ctl then none else some [te], assigned := true }] }
+      | _ => .ok { s with pst }
+  partial def texecStmts (rd : Rd) (tl : String → List Bool) (ctl : Bool) (s : TSt) : Stmts → Except String TSt
+    | .nil => .ok s
+    | .cons x r => do
+      let s' ← texecStmt rd tl ctl s x
+      texecStmts rd tl ctl s' r
+  partial def texecAlts (rd : Rd) (tl : String → List Bool) (ctl : Bool) (s : TSt) (sel : Bits) : Alts → Except String TSt
+    | .nil => .error "CASE: no alternative matches and there is no WHEN OTHERS"
+    | .cons none body _ => texecStmts rd tl ctl s body
+    | .cons (some c) body r => if c == sel then texecStmts rd tl ctl s body else texecAlts rd tl ctl s sel r
+  partial def markAll (s : TSt) (sigs vars : List String) : TSt :=
+    { s with tws := s.tws ++ sigs.map (fun n => { sig := n, taint := none, assigned := false }),
+             vt := vars.foldl (fun vt n => setVT vt n (List.replicate (match s.pst.vars.lookup n with | some v => widthOfVal v | none => 1) true)) s.vt }
+end
 
 /-- run the given processes against the current values (events = `ev`), then update signals; returns the changed signals -/
 def runDelta (k : Kernel) (st : KState) (active : List Nat) (ev : List String) (ext : List (String × Val)) : Except String (KState × List String) := do
   let mut st := st
   let mut touched : List String := []
+  let mut taintTouched : List String := []
   -- external (testbench) driver updates
   for (s, v) in ext do
-    st := { st with drv := st.drv.insert ("tb", s) (normVal v) }
+    st := { st with drv := st.drv.insert ("tb", s) (normVal v), dtaint := st.dtaint.insert ("tb", s) [] }
+    if !taintTouched.contains s then taintTouched := s :: taintTouched
     if !touched.contains s then touched := s :: touched
   let cur := st.cur
   let last := st.last
@@ -355,10 +504,24 @@ def runDelta (k : Kernel) (st : KState) (active : List Nat) (ev : List String) (
       last := fun n => last.get? n
       ty := fun n => p.tys.get? n }
     let pst : PSt := { vars := st.vars[pi]! }
-    match execStmts rd pst p.body with
+    let taintNow := st.taint
+    let tl := fun (n : String) => taintNow.getD n []
+    match texecStmts rd tl false { pst, vt := st.vtaint.getD pi [] } p.body with
     | .error e => throw s!"process {p.name}: {e}"
-    | .ok r =>
-      st := { st with vars := st.vars.set! pi r.vars, procRuns := st.procRuns + 1, assertsFailed := st.assertsFailed + r.asserts }
+    | .ok tr =>
+      let r := tr.pst
+      st := { st with vars := st.vars.set! pi r.vars, procRuns := st.procRuns + 1, assertsFailed := st.assertsFailed + r.asserts,
+                      vtaint := if pi < st.vtaint.size then st.vtaint.set! pi tr.vt else st.vtaint }
+      for tw in tr.tws do
+        let key := (toString pi, tw.sig)
+        let w := match st.cur.get? tw.sig with | some v => widthOfVal v | none => 1
+        let old := fitT w (st.dtaint.getD key [])
+        let nt : List Bool := match tw.idx, tw.taint with
+          | _, none => List.replicate w true
+          | none, some t => fitT w t
+          | some i, some t => old.set i (t.any id)
+        st := { st with dtaint := st.dtaint.insert key (if tw.assigned then nt else orT old nt) }
+        if !taintTouched.contains tw.sig then taintTouched := tw.sig :: taintTouched
       for w in r.writes do
         let key := (toString pi, w.sig)
         match w.idx with
@@ -379,7 +542,15 @@ def runDelta (k : Kernel) (st : KState) (active : List Nat) (ev : List String) (
         st := { st with last := st.last.insert s old, cur := st.cur.insert s v }
         changed := s :: changed
     | none => throw s!"assignment to unknown signal '{s}'"
-  return ({ st with deltas := st.deltas + 1 }, changed)
+  -- taints: a signal's taint is the union over its drivers; a changed taint re-activates the readers (without an event)
+  let mut taintChanged : List String := []
+  for s in taintTouched do
+    let w := match st.cur.get? s with | some v => widthOfVal v | none => 1
+    let nt := (k.sigDrivers.getD s []).foldl (fun acc d => orT acc (fitT w (st.dtaint.getD (d, s) []))) (List.replicate w false)
+    if fitT w (st.taint.getD s []) != nt then
+      st := { st with taint := st.taint.insert s nt }
+      if !changed.contains s then taintChanged := s :: taintChanged
+  return ({ st with deltas := st.deltas + 1, taintWake := taintChanged }, changed)
 
 def activeFor (k : Kernel) (changed : List String) : List Nat :=
   dedupNat (changed.flatMap fun s => k.sensOf.getD s [])
@@ -391,7 +562,7 @@ def settle (k : Kernel) : Nat → KState → List Nat → List String → List (
   | fuel + 1, st, active, ev, ext =>
     if active.isEmpty && ext.isEmpty then .ok st else do
       let (st', changed) ← runDelta k st active ev ext
-      settle k fuel st' (activeFor k changed) changed []
+      settle k fuel st' (activeFor k (changed ++ st'.taintWake)) changed []
 
 /-- initialisation phase: every process runs once -/
 def initialise (k : Kernel) : Except String KState := do
@@ -454,6 +625,11 @@ def hardMismatch (sig pat : Val) : Bool :=
   let bitsOf := fun (v : Val) => match normVal v with | .sl a => [a] | .lit a => a | _ => []
   (List.zipWith (fun a b => match a.to01?, b.to01? with | some x, some y => x != y | _, _ => false) (bitsOf sig) (bitsOf pat)).any id
 
+/-- the elements that are defined on both sides and differ -/
+def hardMismatchMask (sig pat : Val) : List Bool :=
+  let bitsOf := fun (v : Val) => match normVal v with | .sl a => [a] | .lit a => a | _ => []
+  List.zipWith (fun a b => match a.to01?, b.to01? with | some x, some y => x != y | _, _ => false) (bitsOf sig) (bitsOf pat)
+
 def stdMatchVal (sig pat : Val) : Bool :=
   match normVal sig, normVal pat with
   | .sl a, .sl b => a.stdMatch b
@@ -514,6 +690,7 @@ structure CheckFail where
   got : String
   timeFs : Nat
   hard : Bool          -- some element is '0'/'1' on both sides and differs (otherwise: a metavalue where a defined value was expected)
+  hardTainted : Bool   -- hard, and every such element of the checked pin is tainted (went through a metavalue decision) at this CHECK
   deriving Repr
 
 structure ReplayResult where
@@ -598,7 +775,10 @@ def replay (k : Kernel) (top : Entity) (hdr : TbHeader) (items : List (Nat × Ve
         if !stdMatchVal cur pat then
           if res.fails.isEmpty then
             res := { res with dump := st.cur.toList.map (fun (n, v) => (n, v.toText)), metaPresent := metaEver || stateHasMeta st }
-          res := { res with fails := res.fails ++ [{ line := ln, sig := s, expected := v, got := (retag ty cur).toText, timeFs := now, hard := hardMismatch cur pat }] }
+          let mask := hardMismatchMask cur pat
+          let tnt := fitT mask.length (orT (st.taint.getD s.toLower []) (metaMask cur))
+          let ht := mask.any id && (List.zipWith (fun m x => !m || x) mask tnt).all id
+          res := { res with fails := res.fails ++ [{ line := ln, sig := s, expected := v, got := (retag ty cur).toText, timeFs := now, hard := hardMismatch cur pat, hardTainted := ht }] }
       | _, _ => throw s!"vector line {ln}: '{s}' is not a port of the top entity"
   st ← applyExt k st pending
   return { res with deltas := st.deltas, procRuns := st.procRuns, endTimeFs := now }
